@@ -500,7 +500,7 @@ where
                     debug!("invalid auth cookie content received, skipping auth cookie");
                     break 'transfer;
                 };
-                let expires_at = cookie.timestamp + self.auth_cookie_expiry;
+                let expires_at = cookie.timestamp.saturating_add(self.auth_cookie_expiry);
                 let now = SystemTime::now()
                     .duration_since(UNIX_EPOCH)
                     .expect("time error")
